@@ -1,22 +1,241 @@
 from txcommon import *
 
+# codes of coq/Tx/QueryCorr.v (on top of StoreCorr's): 6x = implementation differs from the MODEL,
+# 26x = implementation differs from the LEDGER (property violated)
+CODES13 = dict(CODES)
+CODES13.update({
+    60: "model:unique_tx_details_block", 61: "model:range_transactions_details", 62: "model:previous_pkscripts",
+    63: "model:get_transactions", 64: "harness:malformed_query_observation",
+    260: "block_qualified_lookup_differs_from_ledger", 261: "range_details_differ_from_ledger",
+    262: "previous_scripts_differ_from_ledger",
+})
+# GetTransactions against the ledger: 2600 + 10 * backend + identifier shape (QueryCorr.gt_code) - one kind, the site
+# names the backend branch and the shape
+GT_BACKENDS = ["neutrino", "bitcoind", "btcd"]
+GT_SHAPES = ["heights", "start-hash", "end-hash", "both-hashes"]
+GT_SITES = {}
+for _b, _bn in enumerate(GT_BACKENDS):
+    for _s, _sn in enumerate(GT_SHAPES):
+        CODES13[2600 + 10 * _b + _s] = "get_transactions_differs_from_ledger"
+        GT_SITES[2600 + 10 * _b + _s] = "GetTransactions/%s-%s" % (_bn, _sn)
+
+
+def is_spec(code):
+    return 100 <= code < 900 or code == 10 or code in GT_SITES
+
+
+def zz(x):
+    return "(%d)" % x if x < 0 else "%d" % x
+
+
+def bid(b):
+    # block ids the harness could not map back are rendered as a value no block has
+    return "%d" % (b if b >= 0 else 4294967295)
+
+
+def q_det(d):
+    blk = "Some (%s,%s)" % (zz(d["h"]), bid(d["b"])) if d["mined"] else "None"
+    cs = clist(["(%d,%s,%s,%s)" % (c["i"], zz(c["amt"]), cbool(c["spent"]), cbool(c["chg"])) for c in d["credits"] or []])
+    ds = clist(["(%d,%s)" % (x[0], zz(x[1])) for x in d["debits"] or []])
+    return "(%d,%s,%s,%s)" % (d["t"], blk, cs, ds)
+
+
+def q_sum(s):
+    return "(%d,%s,%s,%s)" % (s["t"], clist(["(%d,%s)" % (x[0], zz(x[1])) for x in s["ins"] or []]),
+                             clist(["%d" % x for x in s["outs"] or []]), zz(s["fee"]))
+
+
+def q_obs(q):
+    if not q:
+        return "{| qo_tab := []; qo_uniq := []; qo_range := []; qo_prev := []; qo_gt := [] |}"
+    tab = clist([q_det(d) for d in q["tab"] or []])
+    uniq = clist(["(%d,%s,%s,%s)" % (u[0], zz(u[1]), bid(u[2]), zz(u[3])) for u in q["uniq"] or []])
+    rng = clist(["(%s,%s,%d,%s,%s)" % (zz(r["b"]), zz(r["e"]), r["k"], cbool(bool(r.get("err"))),
+                                       clist([clist(["%d" % i for i in g]) for g in r["groups"] or []]))
+                 for r in q["range"] or []])
+    prev = clist(["(%d,%s,%s,%s,%s)" % (p["t"], zz(p["h"]), bid(p["b"]), cbool(bool(p.get("err"))),
+                                        clist(["(%d,%d)" % (o[0], o[1]) for o in p["ops"] or []]))
+                  for p in q["prev"] or []])
+    gt = clist(["(%d,(%d,%s),(%d,%s),%s,%s,%s,%s)" % (
+        g.get("backend", 0), g["start"][0], zz(g["start"][1]), g["end"][0], zz(g["end"][1]), cbool(g["cancel"]), cbool(bool(g.get("err"))),
+        clist(["(%s,%s,%s)" % (zz(b["h"]), bid(b["b"]), clist([q_sum(s) for s in b["txs"] or []])) for b in g["mined"] or []]),
+        clist([q_sum(s) for s in g["unmined"] or []])) for g in q["gt"] or []])
+    return "{| qo_tab := %s; qo_uniq := %s; qo_range := %s; qo_prev := %s; qo_gt := %s |}" % (tab, uniq, rng, prev, gt)
+
 
 class C13(TxCheck):
     ID = "C13"
     MODE = "c13"
     LEVEL = "proof"
-    MODEL_CODES = [16, 18, 19, 20, 902]
+    BINS = 12
+    # 20 (txid-only ranges INCLUDING the order inside a block) is recorded as drift only: the property fixes no
+    # order inside a block; 61 compares the same iterations with full details, groups as multisets
+    MODEL_CODES = [16, 18, 19, 60, 61, 62, 63, 64, 902]
     N_QUICK = 50
     N_THOROUGH = 1500
-    KINDS = ["tx_details_differ_from_ledger", "unconfirmed_set_differs_from_ledger", "range_iteration_differs_from_ledger", "store_error"]
-    RULE = ("C01's generator; after EVERY event: TxDetails and UniqueTxDetails(unmined) for every transaction of the universe "
-            "(known, removed, never seen), RangeTransactions over {0..-1, -1..0, 0..tip, tip..0, -1..-1, tip..tip, tip+1..-1, 1..tip-1, tip-1..1} "
-            "(groups per block in both directions, unmined group position), UnminedTxHashes - compared with the model and with spec_details. "
+    KINDS = ["tx_details_differ_from_ledger", "unconfirmed_set_differs_from_ledger", "range_iteration_differs_from_ledger", "store_error",
+             "block_qualified_lookup_differs_from_ledger", "range_details_differ_from_ledger",
+             "previous_scripts_differ_from_ledger", "get_transactions_differs_from_ledger"]
+    RULE = ("C01's generator on a real wallet's store; after EVERY event: TxDetails and UniqueTxDetails(nil) for every transaction of the universe "
+            "(known, removed, never seen); UniqueTxDetails(block) for the current block, every block the transaction was ever confirmed in (stale after a reorg), "
+            "a block it never was in and the current height under a foreign hash; RangeTransactions over {0..-1, -1..0, 0..tip, tip..0, -1..-1, tip..tip, tip+1..-1, "
+            "1..tip-1, tip-1..1} (txids) and over 5 (begin,end) pairs per event drawn from {-1,0,1,tip-1,tip,tip+1,h,h+1}^2 with FULL details per group "
+            "(groups compared as multisets) and a callback that stops after k in {never,1,2,3} groups; PreviousPkScripts(nil / confirming block / stale block) for "
+            "every known and a third of the other transactions; 2 Wallet.GetTransactions calls per event (nil / height / hash identifiers, unknown hashes, "
+            "closed cancel channel), each through one of the three REAL backends of its type switch - chain.NeutrinoClient over a stub chain service, "
+            "chain.BitcoindClient over an in-process JSON-RPC/HTTP stand-in, chain.RPCClient over an in-process btcd websocket stand-in; corpus/C13 runs first; UnminedTxHashes - each compared with the model and with the ledger specification. "
             "non-trivial = history with a confirmation and a reorg or removal; distinct by input")
+
+    PARTIAL_CLAUSES = [
+        "TransactionSummary fields that come from the address manager or the clock (PreviousAccount, Account, Internal, Label, Timestamp) are "
+        "outside the model; hash, MyInputs (index, amount), MyOutputs (index) and Fee are modelled and compared",
+    ]
+
+    def gen_args(self, tier, seed):
+        args = super().gen_args(tier, seed)
+        corpus = os.path.join(VERIF, "corpus", "C13")
+        pre = []
+        if os.path.isdir(corpus):
+            # witnesses of repaired findings run first (one case per file: {"in": ...})
+            for f in sorted(os.listdir(corpus)):
+                if not f.endswith(".json"):
+                    continue
+                p = os.path.join(WORK, "corpus_C13_" + f + "l")
+                os.makedirs(WORK, exist_ok=True)
+                with open(p, "w") as out:
+                    out.write(json.dumps({"in": json.load(open(os.path.join(corpus, f)))["in"]}) + "\n")
+                pre.append(["txstore", "-mode", "c13", "-replay", p])
+        return pre + args
 
     def nontrivial(self, c):
         t = set(c.get("tags", []))
         return "ev_confirm" in t and bool(t & {"reorg_depth_1", "reorg_depth_2", "reorg_depth_3", "conflict_confirmed", "ev_abandon"})
+
+    def render_cases(self, cases):
+        parts = []
+        for k, c in enumerate(cases):
+            qs = clist(["\n   " + q_obs(o.get("q")) for o in c["obs"]])
+            parts.append("Definition c%d : tcase :=\n %s.\nLocal Open Scope Z_scope.\nDefinition q%d : list qobs := %s.\nLocal Close Scope Z_scope.\n"
+                         % (k, r_case(c), k, qs))
+        return """From stdpp Require Import gmap list numbers.
+From Coq Require Import ZArith NArith.
+From Verif Require Import Tx.Store Tx.Ledger Tx.Hist Tx.StoreCorr Tx.Query Tx.QueryCorr.
+%s
+Definition bad := Eval vm_compute in qfailures %s.
+Print bad.
+""" % ("\n".join(parts), clist(["(c%d, q%d)" % (k, k) for k in range(len(cases))]))
+
+    def sample(self, c):
+        s = TxCheck.sample(self, c)
+        q = c["obs"][-1].get("q") or {}
+        s["final_queries"] = dict(range=[(r["b"], r["e"], r["k"], len(r["groups"] or [])) for r in q.get("range") or []],
+                                  get_transactions=[(g["start"], g["end"], g["cancel"], bool(g.get("err"))) for g in q.get("gt") or []])
+        return s
+
+    def evaluate_model(self, cases):
+        # TxCheck.evaluate_model with this property's code table
+        import concurrent.futures as cf
+        mism, logs, problems = [], "", []
+        # shards balanced by rendered size (parsing the literals dominates), at most BINS of them
+        sizes = sorted(((len(json.dumps(c["obs"])), i) for i, c in enumerate(cases)), reverse=True)
+        nb = max(1, min(self.BINS, (len(cases) + 1) // 2), (len(cases) + 5) // 6)
+        bins, load = [[] for _ in range(nb)], [0] * nb
+        for sz, i in sizes:
+            k = load.index(min(load))
+            bins[k].append(i)
+            load[k] += sz
+        bins = [sorted(b) for b in bins if b]
+
+        def run(bi):
+            return bi, coq_eval(self.ID, self.render_cases([cases[i] for i in bins[bi]]), "cases_%d" % bi)
+        with cf.ThreadPoolExecutor(max_workers=self.BINS) as ex:
+            results = list(ex.map(run, range(len(bins))))
+        self.fail_detail = {}
+        for bi, (rc, out, err) in results:
+            if rc != 0:
+                problems.append("correspondence: cases file does not evaluate: " + (err or out)[-1500:])
+                continue
+            printed = parse_printed(out, "bad")
+            if printed is None:
+                problems.append("correspondence: could not parse model output: " + out[-500:])
+                continue
+            nums = [int(x) for x in re.findall(r"\d+", printed)]
+            for j in range(0, len(nums) - 2, 3):
+                ci, ev, code = bins[bi][nums[j]], nums[j + 1], nums[j + 2]
+                self.fail_detail.setdefault(ci, []).append((ev, code))
+        for ci, fl in sorted(self.fail_detail.items()):
+            c = cases[ci]
+            spec = sorted({CODES13.get(code, str(code)) for ev, code in fl if is_spec(code)})
+            other = [(ev, code) for ev, code in fl if not is_spec(code)]
+            drift = [(ev, code) for ev, code in other if code < 100 and code not in self.MODEL_CODES]
+            other = [(ev, code) for ev, code in other if not (code < 100 and code not in self.MODEL_CODES)]
+            if drift:
+                self.drift = getattr(self, "drift", 0) + 1
+            spec = [k for k in spec if k in self.KINDS]
+            for k in spec:
+                if k not in c["oracle"]:
+                    c["oracle"].append(k)
+            c["first_failures"] = [dict(event=ev, what=CODES13.get(code, str(code))) for ev, code in fl[:8]]
+            c["failure_codes"] = [[ev, code] for ev, code in fl[:400]]
+            if other:
+                mism.append(ci)
+                gen = [code for ev, code in other if code >= 900 and code != 902]
+                if gen:
+                    problems.append("generator produced an inadmissible case (index %d): %s" % (
+                        ci, [CODES13.get(x) for x in gen]))
+        return mism, logs, problems
+
+    def extra_coverage(self, cases):
+        cov = TxCheck.extra_coverage(self, cases)
+        n = dict(unique_block_lookups=0, unique_block_hits=0, stale_or_foreign_block_lookups=0, range_queries=0,
+                 range_queries_stopped_early=0, range_groups_with_2plus_txs=0, previous_pkscripts_calls=0,
+                 previous_pkscripts_nonempty=0, get_transactions_calls=0, get_transactions_by_hash=0,
+                 get_transactions_backend_errors=0, get_transactions_cancelled=0)
+        for c in cases:
+            for o in c["obs"]:
+                q = o.get("q")
+                if not q:
+                    continue
+                for u in q["uniq"] or []:
+                    n["unique_block_lookups"] += 1
+                    if u[3] >= 0:
+                        n["unique_block_hits"] += 1
+                    else:
+                        n["stale_or_foreign_block_lookups"] += 1
+                for r in q["range"] or []:
+                    n["range_queries"] += 1
+                    if r["k"] and len(r["groups"] or []) == r["k"]:
+                        n["range_queries_stopped_early"] += 1
+                    n["range_groups_with_2plus_txs"] += sum(1 for g in r["groups"] or [] if len(g) > 1)
+                for p in q["prev"] or []:
+                    n["previous_pkscripts_calls"] += 1
+                    if p["ops"]:
+                        n["previous_pkscripts_nonempty"] += 1
+                for g in q["gt"] or []:
+                    n["get_transactions_calls"] += 1
+                    if g["start"][0] >= 2 or g["end"][0] >= 2:
+                        n["get_transactions_by_hash"] += 1
+                    bk = "get_transactions_via_" + GT_BACKENDS[g.get("backend", 0)]
+                    n[bk] = n.get(bk, 0) + 1
+                    if g["end"][0] == 2:
+                        n[bk + "_end_hash_resolved"] = n.get(bk + "_end_hash_resolved", 0) + 1
+                    if g.get("err"):
+                        n["get_transactions_backend_errors"] += 1
+                    if g["cancel"]:
+                        n["get_transactions_cancelled"] += 1
+        cov["query_coverage"] = n
+        return cov
+
+    def site_of(self, case, kind):
+        # GetTransactions: the backend branch and identifier shape of the first failing call;
+        # otherwise the event kind at which the property first failed
+        ev = case["in"]["events"]
+        for e, code in case.get("failure_codes") or []:
+            if CODES13.get(code, str(code)) == kind:
+                if code in GT_SITES:
+                    return GT_SITES[code]
+                return ev[e]["k"] if e < len(ev) else "pair"
+        return "*"
 
 
 CHECK = C13
